@@ -82,10 +82,15 @@ def build_stacked(case):
             e = rm.unvec(basis, x[j * n : (j + 1) * n])
             w, v = np.linalg.eigh(rm.herm(e))
             u0 = v[:, 0]
-            e2 = e - (w[0] + eps) * np.outer(u0, u0.conj())
-            x[j * n : (j + 1) * n] = np.real(rm.vec(basis, e2))
             j2 = (j + 1) % m  # keep the sum
-            e_other = rm.unvec(basis, x[j2 * n : (j2 + 1) * n]) + (w[0] + eps) * np.outer(u0, u0.conj())
+            if df.get("whole") and m >= 2:
+                e2 = -eps * np.outer(u0, u0.conj())
+                moved = e - e2
+            else:
+                e2 = e - (w[0] + eps) * np.outer(u0, u0.conj())
+                moved = (w[0] + eps) * np.outer(u0, u0.conj())
+            x[j * n : (j + 1) * n] = np.real(rm.vec(basis, e2))
+            e_other = rm.unvec(basis, x[j2 * n : (j2 + 1) * n]) + moved
             x[j2 * n : (j2 + 1) * n] = np.real(rm.vec(basis, e_other))
         return x
     if t in ("gate", "mprocess"):
@@ -99,7 +104,13 @@ def build_stacked(case):
             choi = rm.choi_from_hs(basis, hs)
             w, v = np.linalg.eigh(rm.herm(choi))
             u0 = v[:, 0]
-            choi2 = choi - (w[0] + eps) * np.outer(u0, u0.conj())
+            if df.get("whole") and t == "mprocess" and m >= 2:
+                choi2 = -eps * np.outer(u0, u0.conj())
+                j2 = (j + 1) % m
+                hs2 = x[j2 * n * n : (j2 + 1) * n * n].reshape(n, n) + np.real(rm.hs_from_choi(basis, choi - choi2))
+                x[j2 * n * n : (j2 + 1) * n * n] = hs2.reshape(-1)
+            else:
+                choi2 = choi - (w[0] + eps) * np.outer(u0, u0.conj())
             hs = np.real(rm.hs_from_choi(basis, choi2))
         x[j * n * n : (j + 1) * n * n] = hs.reshape(-1)
         return x
@@ -177,6 +188,10 @@ def defect_st(draw, t, atol):
     df["col"] = draw(st.integers(0, 35))
     if t == "povm" and kind == "eq":
         df["raw_dir"] = draw(gen.raw(36))
+    if t in ("povm", "mprocess") and kind == "ineq":
+        # the violating element / outcome is, as a whole, of the size of the violation (-eps * projector); the rest of its
+        # mass sits in the next one
+        df["whole"] = draw(st.booleans())
     return df
 
 
